@@ -35,7 +35,7 @@ def description(max_total=210, max_tags=8):
     @st.composite
     def _d(draw):
         n = draw(st.integers(0, max_tags))
-        tags = draw(st.lists(st.one_of(st.integers(0, 255), st.sampled_from([0xC1, 0xC3, 0xC4, 0xC5, 0xC6, 0xC7, 0xC8, 0xC9])),
+        tags = draw(st.lists(st.one_of(st.integers(0, 255), st.sampled_from([0xC1, 0xC2, 0xC2, 0xC3, 0xC4, 0xC5, 0xC6, 0xC7, 0xC8, 0xC9])),
                              min_size=n, max_size=n, unique=True))
         out = []
         room = max_total
